@@ -1,2 +1,4 @@
 import HkModel.Model.Queue
 import HkModel.Obs.Queue
+import HkModel.Props.Queue
+import HkModel.Props.C06
